@@ -132,7 +132,7 @@ func (m c02) Run(ctx *core.Ctx) {
 		}
 	}
 	// sampled configurations over the full option space + the four profiles
-	nCfg := int(split(tierN(ctx.Tier, 600, 6000), ctx.Shard, ctx.NShards))
+	nCfg := int(split(tierN(ctx.Tier, 1000, 6000), ctx.Shard, ctx.NShards))
 	perCfg := int(tierN(ctx.Tier, 1200, 2500))
 	for k := 0; k < nCfg; k++ {
 		cfg := randomConfig(r)
